@@ -21,14 +21,14 @@ Proof. intros HB HT. induction V as [|v V IH]; intros [|c C] [|ns Ns] [|n N] HV 
   replace (sqrt (v / c) * T / (101 / 100 * B)) with (sqrt (v / c) * T / B * (100 / 101)) by (field; lra). lra. Qed.
 
 Theorem budget_at_return rmse V C N : 0 < rmse -> length V = length C ->
-  Forall (fun v => 0 <= v) V -> Forall (fun c => 0 < c) C ->
+  Forall (fun v => 0 <= v) V -> Forall (fun c => 0 < c) C -> in_range rmse (S_of V C) V C ->
   within_pct N (giles_alloc rmse V C) -> est_var V N <= 101 / 100 * var_share rmse.
-Proof. intros Hr HL HV HC HW. pose proof (var_share_pos rmse Hr) as HB.
+Proof. intros Hr HL HV HC HR HW. pose proof (var_share_pos rmse Hr) as HB.
   destruct (Req_dec (S_of V C) 0) as [E|E].
   - rewrite (est_var_zero V HV C _ E HC HL). lra.
   - pose proof (S_of_nonneg V C). assert (HT : 0 < S_of V C) by lra.
     assert (HB' : 0 < 101 / 100 * var_share rmse) by lra.
-    pose proof (ge_bound_relaxed _ _ HB (Rlt_le _ _ HT) V C _ N HV HC (alloc_ge_bound rmse (S_of V C) V C HL HC) HW) as HG.
+    pose proof (ge_bound_relaxed _ _ HB (Rlt_le _ _ HT) V C _ N HV HC (alloc_ge_bound rmse (S_of V C) V C HL HC HR) HW) as HG.
     pose proof (budget_general _ _ HB' HT V C N HV HC HG) as Hb.
     replace (S_of V C * (101 / 100 * var_share rmse) / S_of V C) with (101 / 100 * var_share rmse) in Hb by (field; lra). exact Hb. Qed.
 
@@ -56,10 +56,11 @@ Theorem budget_at_converged_return
   (L0 <= level_max)%nat ->
   price_run sample cost alloc conv garbage df notional level_max phantom fuel L0 N0 = Converged s ->
   0 < rmse -> length V = length C -> Forall (fun v => 0 <= v) V -> Forall (fun c => 0 < c) C ->
+  in_range rmse (S_of V C) V C ->
   length (alloc (nalloc s - 1)%nat) = length (levels s) ->
   map IZR (alloc (nalloc s - 1)%nat) = giles_alloc rmse V C ->
   est_var V (map (fun v => INR (lN v)) (levels s)) <= 101 / 100 * var_share rmse.
-Proof. intros HL Hrun Hr Hlen HV HC Hal Heq.
+Proof. intros HL Hrun Hr Hlen HV HC HR Hal Heq.
   pose proof (price_safety sample cost alloc conv df notional level_max phantom fuel garbage L0 N0 HL) as S.
   rewrite Hrun in S. simpl in S. destruct S as [_ [Hpct [_ [_ [_ Hd]]]]].
   apply (budget_at_return rmse V C); auto. rewrite <- Heq.
